@@ -116,15 +116,16 @@ def impl_coverage(comp: str) -> dict | None:
 
 
 def kernel_samples(comp: str, tier: str) -> dict | None:
-    """simulator only: the Lean kernel itself (by decide) confirms model = implementation on small generated inputs"""
-    if comp != "sim":
+    """simulator and loader: the Lean kernel itself (by decide) confirms model = implementation on small generated inputs"""
+    if comp not in ("sim", "loader"):
         return None
 
     def compute():
         import subprocess
 
         n = 24 if tier == "quick" else 400
-        r = subprocess.run([sys.executable, "-m", "checks.kernel_samples", str(n)], cwd=VERIF, capture_output=True, text=True)
+        r = subprocess.run([sys.executable, "-m", "checks.kernel_samples", str(n)], cwd=VERIF, capture_output=True, text=True,
+                           env=dict(os.environ, VERIF_KERNEL_COMPONENT=comp))
         try:
             return json.loads(r.stdout.strip().splitlines()[-1])
         except Exception:  # noqa: BLE001
@@ -295,7 +296,7 @@ def main() -> int:
     # (3) kernel samples refuted: the definitions the theorems are about disagree with the implementation
     if ksamples is not None and not ksamples.get("confirmed") and not violations:
         path = write_replay(prop, {"property": prop, "kind": "correspondence",
-                                   "broken": "K.kernel.sim (Lean kernel: `outcomeCanon (simulate p prog) = implementation's outcome` refuted by `decide`)",
+                                   "broken": f"K.kernel.{comp} (Lean kernel: model outcome = implementation's outcome refuted by `decide`)",
                                    "theorems_relying_on_it": [t["name"] for t in aud["theorems"]], "seed": seed,
                                    "detail": ksamples,
                                    "note": "no input was found on which the property's own predicate fails; the property is no longer shown to hold"})
